@@ -63,7 +63,7 @@ func genC12(r *core.Rand, run int) *MuxScenario {
 				case 5:
 					op = RegOp{Kind: "regconn", Target: tgt, Adv: [][]string{{tsvc}, {svcFiles}, {tsvc, svcMessaging}, {}, {svcFiles, svcMessaging}, {tsvc, svcFiles, svcMessaging}, {svcMessaging, svcFiles}}[r.Intn(7)]}
 				case 6:
-					op = RegOp{Kind: "regconn", Target: tgt, Fail: r.PickS("refl:0", "refl:1", "refl:2", "refl:3", "refl:2c", "refl:3c", "refl:0e", "refl:1e")}
+					op = RegOp{Kind: "regconn", Target: tgt, Fail: r.PickS("refl:0", "refl:1", "refl:2", "refl:3", "refl:2c", "refl:3c", "refl:0e", "refl:1e", "refl:end")}
 				case 7:
 					op = RegOp{Kind: "regconn", Target: tgt, Fail: "cancel"}
 				}
